@@ -235,6 +235,17 @@ def run(eng, rep) -> None:
     rep.check(f.has_decorator("catch"), "R20.4", f.file, f.qual, "@catch", "nested failure is returned as an error value", "import callback lacks @catch: a failing module raises instead of returning an error")
     # ---- R20.3 ----------------------------------------------------------------------
     fname_roots = {"filename"} | {n for n, bs in defs.binds.items() if path_arg is not None and isinstance(path_arg, ast.Name) and n == path_arg.id}
+    # locals derived from the module path (module_name = filename.name, import_site = Token(...)) carry it too
+    grew = True
+    while grew:
+        grew = False
+        for n_, bs in defs.binds.items():
+            if n_ in fname_roots:
+                continue
+            vals_ = [v for k, v, st in bs if k == "assign" and v is not None]
+            if len(vals_) == 1 and mentions(eng, f, vals_[0], fname_roots):
+                fname_roots.add(n_)
+                grew = True
     n_err = 0
     for n in ast.walk(f.node):
         if isinstance(n, ast.Call):
